@@ -14,7 +14,8 @@ RULE = ("C01-style generated programs x Hypothesis-drawn permutations: the state
         "its variables). Oracle: metamorphic, instance mode (same probabilities, same reported instances, same "
         "accept/reject class) against the original text. Non-trivial: the permutation is not the identity and "
         "either moves a clause of a recursive predicate or reorders a body. Distinct = distinct (program, "
-        "permutation).")
+        "permutation). One case in three grounds both texts with evidence propagation on (the command line's "
+        "default); one program in five comes from the evidence-biased family (2-3 evidence atoms on derived atoms).")
 ASSUMPTIONS = ["metamorphic oracle between two runs of the real code; reference semantics not consulted here"]
 
 
@@ -54,7 +55,10 @@ def check(case):
     prog = case["prog"]
     feats = gp.features(prog)
     src = sem.render_program(prog)
-    base = plrun.run_problog(src)
+    ga = {"propagate_evidence": True} if case.get("propagate") else None
+    if ga:
+        feats.add("propagate_evidence")
+    base = plrun.run_problog(src, ground_args=ga)
     if base[0] == "resource":
         return Outcome(inconclusive=base[1], features=feats)
     failure = None
@@ -85,7 +89,7 @@ def check(case):
         src2 = sem.render_program(prog2)
         if src2 == src:
             continue
-        res = plrun.run_problog(src2)
+        res = plrun.run_problog(src2, ground_args=ga)
         if res[0] == "resource":
             return Outcome(inconclusive=res[1], features=feats)
         f = plrun.compare_instance_mode(base, res, "original", "permutation %d" % pi)
@@ -104,15 +108,20 @@ def _strategy(nperm):
                          st.lists(st.lists(st.integers(0, 5), min_size=1, max_size=3), min_size=1, max_size=4))
         progs = st.one_of(gp.programs(allow_shuffle=False), gp.programs(allow_shuffle=False),
                           gp.programs(allow_shuffle=False, share_bias=True, max_preds=3),
-                          gp.programs(allow_shuffle=False, share_bias=True, max_preds=3))
-        return st.tuples(progs, st.lists(perm, min_size=nperm, max_size=nperm)).map(
-            lambda t: {"prog": t[0], "perms": [[list(p[0]), [list(x) for x in p[1]]] for p in t[1]]})
+                          gp.programs(allow_shuffle=False, share_bias=True, max_preds=3),
+                          gp.programs(allow_shuffle=False, evidence_bias=True))
+        # one case in three grounds with evidence propagation (the command line's default) in both runs
+        return st.tuples(progs, st.lists(perm, min_size=nperm, max_size=nperm), st.integers(0, 2)).map(
+            lambda t: {"prog": t[0], "perms": [[list(p[0]), [list(x) for x in p[1]]] for p in t[1]],
+                       "propagate": t[2] == 0})
     return f
 
 
 KNOWN_CLASSES = {
     "cyclic_or_complement": lambda case, failure: gp.cyclic_body_disjunction_with_complement(case["prog"]),
-    "zero_prob_or_complementary_body": lambda case, failure: gp.zero_prob_or_complementary_body(case["prog"]),
+    "zero_prob_or_complementary_body": lambda case, failure: gp.zero_prob_or_complementary_body(case["prog"]) or (
+        # an atom that propagated evidence makes false behaves like a probability-0 annotation
+        bool(case.get("propagate")) and any(s[0] == "evidence" for s in case["prog"])),
     "negcycle_fp": lambda case, failure: gp.neg_on_cyclic_goal_under_active_cycle(case["prog"]),
     "neg_under_cycle": lambda case, failure: gp.neg_under_active_cycle(case["prog"]),
     "ad_cyclic_complement": lambda case, failure: gp.cyclic_multihead_ad_with_complementary_body(case["prog"]),
